@@ -177,4 +177,54 @@ theorem failed_switch_polled_once (C : Cfg) (cd : CommD) (swF : List Bool) (d : 
   have : gb (swF.set d false) d = false := gb_set_self _ _ _ hd
   simp only [swPoll, this, Bool.and_false, Bool.false_eq_true, if_false]
 
+open Relsad.Control in
+/-- the breaker check of the manual loops does nothing while the sectioning time runs -/
+theorem manual_check_waits (C : Cfg) (s : St) (n : Nat) (ht : 0 < gr s.timer n) : checkBreakerManually C s n = s := by
+  unfold checkBreakerManually
+  have h : ¬ gr s.timer n ≤ 0 := not_le.mpr ht
+  simp only [h, if_false]
+  split_ifs <;> rfl
+
+open Relsad.Control in
+/-- **With the main controller out of service every network is on its manual loop, and a manual loop never recloses a
+breaker before the sectioning time has run out**: a pass of a distribution controller that starts with more than one step
+of sectioning time left and nothing to inspect only counts the time down — breakers, switches, lines and sections are as
+before.  (The scenarios of the check in which the main controller is under repair are compared with exactly these
+loops, `ctl step`.) -/
+theorem manual_loop_waits_for_sectioning_time (C : Cfg) (s : St) (n : Nat) (dt : ℚ) (hn : n < s.timer.length)
+    (ht : dt < gr s.timer n) (hdt : 0 ≤ dt) (hc : gb s.check n = false) :
+    distLoop C s n dt = { s with timer := s.timer.set n (gr s.timer n - dt) } := by
+  have hpos : gr s.timer n > 0 := lt_of_le_of_lt hdt ht
+  have htick : tick (gr s.timer n) dt = gr s.timer n - dt := by unfold tick; simp only [hpos, if_true]
+  have hg : gr (s.timer.set n (gr s.timer n - dt)) n = gr s.timer n - dt := gr_set_self _ _ _ hn
+  have hgt : 0 < gr s.timer n - dt := by linarith
+  unfold distLoop
+  simp only [htick, hg]
+  have h1 : ¬ gr s.timer n - dt ≤ 0 := not_le.mpr hgt
+  simp only [h1, decide_false, Bool.and_false, Bool.false_eq_true, if_false, hc]
+  exact manual_check_waits C _ n (by simpa [hg] using hgt)
+
+open Relsad.Control in
+/-- … and the same for a microgrid controller (whose own time is raised to its parent's when that is larger). -/
+theorem manual_mg_loop_waits_for_sectioning_time (C : Cfg) (s : St) (n : Nat) (dt : ℚ) (hn : n < s.timer.length)
+    (ht : dt < gr s.timer n) (hdt : 0 ≤ dt) (hc : gb s.check n = false) :
+    (mgLoop C s n dt).cbOpen = s.cbOpen ∧ (mgLoop C s n dt).conn = s.conn ∧ (mgLoop C s n dt).dOpen = s.dOpen ∧
+    gr s.timer n - dt ≤ gr (mgLoop C s n dt).timer n := by
+  have hpos : gr s.timer n > 0 := lt_of_le_of_lt hdt ht
+  have htick : tick (gr s.timer n) dt = gr s.timer n - dt := by unfold tick; simp only [hpos, if_true]
+  have hgt : 0 < gr s.timer n - dt := by linarith
+  unfold mgLoop
+  simp only [htick]
+  set t2 := (if gr s.pTimer n > gr s.timer n - dt then gr s.pTimer n else gr s.timer n - dt) with ht2
+  have ht2pos : 0 < t2 ∧ gr s.timer n - dt ≤ t2 := by
+    rw [ht2]; split_ifs with h
+    · exact ⟨lt_trans hgt h, le_of_lt h⟩
+    · exact ⟨hgt, le_refl _⟩
+  have hg : gr (s.timer.set n t2) n = t2 := gr_set_self _ _ _ hn
+  simp only [hg]
+  have h1 : ¬ t2 ≤ 0 := not_le.mpr ht2pos.1
+  simp only [h1, decide_false, Bool.and_false, Bool.false_eq_true, if_false, hc]
+  rw [manual_check_waits C _ n (by simpa [hg] using ht2pos.1)]
+  exact ⟨rfl, rfl, rfl, by simpa [hg] using ht2pos.2⟩
+
 end Relsad.C16
